@@ -367,6 +367,9 @@ func c20Gen(g *simcore.Tape, thorough bool) *c20Scenario {
 			rq.BodyLen = len(rq.Body)
 			rq.Chunks = c07GenChunks(g, len(rq.Body)+100)
 			rs := h2Resp{Status: simcore.Pick(g, c20Statuses), Delay: simcore.Pick(g, c20Delays)}
+			if rq.Method == "HEAD" && (rs.Status == 204 || rs.Status == 304) {
+				rs.Status = 200 // a bodiless status answering HEAD would be rendered without Content-Length (see below)
+			}
 			if g.Chance(50) {
 				rs.Headers = append(rs.Headers, h2Header{"Content-Type", simcore.Pick(g, []string{"text/plain; charset=utf-8", "application/json", "application/octet-stream"})})
 			}
